@@ -121,21 +121,27 @@ fn word_patterns() -> Vec<Vec<&'static str>> {
     vec![vec!["ab"], vec!["ab", "cde"], vec!["f", "\u{4f60}\u{597d}"], vec!["abcdefghij", "k"], vec!["x-y", "ab"]]
 }
 
-/// Text-level probes on one long paragraph: `what` in {"C01", "C02", "C09", "C17"}.
+/// Text-level probes on one long paragraph: `what` in {"C01", "C02", "C07", "C09", "C17"}.
 pub fn text_scale(r: &mut Run, name: &str, what: &'static str) -> Result<(), MachineryError> {
     let t = r.tier;
     let pats = word_patterns();
-    let lens = lengths(t, if t == Tier::Quick { 4200 } else { 10_000 });
+    let mut lens = lengths(t, if t == Tier::Quick { 4200 } else { 70_000 });
+    if t == Tier::Quick {
+        lens.push(65_537); // three lines or more at the 65 537-column width for every word pattern (first-fit only)
+    }
     let lens2 = lens.clone();
     let n_cases = (pats.len() * lens.len()) as u64;
-    r.range(name, &format!("one paragraph of n words, n in {:?}, the words cycling through each of {:?}, joined by single spaces; widths {{20, 72}} x separators x algorithms x break_words x indent pairs {{(\"\",\"\"), (\"> \",\"  \")}}", lens, pats), n_cases, move |i, cx| {
+    // widths around the 8-, 16- and 32-bit boundaries as well as everyday ones: a width that is
+    // narrowed on its way to the wrap algorithm shows only beyond such a boundary
+    let widths: Vec<usize> = if t == Tier::Quick { vec![20, 72, 256, 65_537] } else { vec![20, 72, 255, 256, 257, 1000, 65_535, 65_536, 65_537, (1usize << 32) + 1] };
+    r.range(name, &format!("one paragraph of n words, n in {:?}, the words cycling through each of {:?}, joined by single spaces; widths {:?} x separators x algorithms x break_words x indent pairs {{(\"\",\"\"), (\"> \",\"  \")}}", lens, pats, widths), n_cases, move |i, cx| {
         let pat = &pats[(i as usize) / lens2.len()];
         let n = lens2[(i as usize) % lens2.len()];
         let text: String = (0..n).map(|k| pat[k % pat.len()]).collect::<Vec<_>>().join(" ");
         cx.seq = idx_seq(i);
         cx.set_input(&format!("{} words cycling {:?}", n, pat));
         if what == "C17" {
-            for w in [20usize, 72] {
+            for &w in &widths {
                 cx.eval();
                 cx.nontrivial();
                 let d = || format!("width={}", w);
@@ -156,9 +162,17 @@ pub fn text_scale(r: &mut Run, name: &str, what: &'static str) -> Result<(), Mac
             }
             return;
         }
-        let g = Gamma { seps: seps(), algs: if what == "C02" { vec![Alg::FirstFit] } else { algs_default() }, spls: vec![Spl::Hyphen], bws: vec![true, false], indents: vec![("", ""), ("> ", "  ")], crlf: vec![false] };
+        let g = Gamma { seps: seps(), algs: if what == "C02" || what == "C07" { vec![Alg::FirstFit] } else { algs_default() }, spls: vec![if what == "C07" { Spl::None } else { Spl::Hyphen }], bws: vec![true, false], indents: vec![("", ""), ("> ", "  ")], crlf: vec![false] };
         for base in g.bases() {
-            for w in [20usize, 72] {
+            // C07 compares with a greedy rule over the space-separated words: under the Unicode
+            // separator that is the fragment sequence only when no word has an inner break
+            if t == Tier::Quick && n > 5000 && !base.is_ff() {
+                continue;
+            }
+            if what == "C07" && base.is_uni() && pat.iter().any(|w| !w.bytes().all(|b| b.is_ascii_alphabetic())) {
+                continue;
+            }
+            for &w in &widths {
                 cx.eval();
                 cx.nontrivial();
                 let cfg = Cfg { width: w, ..base };
@@ -210,6 +224,29 @@ pub fn text_scale(r: &mut Run, name: &str, what: &'static str) -> Result<(), Mac
                             why = format!("text after byte {} is not covered by any line", cursor);
                         }
                         cx.check("C01-slices-in-order(long)", why.is_empty(), &d, &|| json!({"why": why, "lines": lines.len()}));
+                    }
+                    "C07" => {
+                        // the fragments are the words (no splitter, nothing to force-break: every
+                        // word is at most 10 columns wide), each followed by one space
+                        let words: Vec<&str> = text.split(' ').collect();
+                        let fr: Vec<Frag> = words.iter().map(|x| Frag { w: ref_width(x) as f64, ws: 1.0, p: 0.0 }).collect();
+                        let lw = [w.saturating_sub(ref_width(cfg.ii)) as f64, w.saturating_sub(ref_width(cfg.si)) as f64];
+                        let exp = ref_first_fit(&fr, &lw);
+                        let mut k = 0usize;
+                        let mut bad = None;
+                        for (j, l) in lines.iter().enumerate() {
+                            let ind = if j == 0 { cfg.ii } else { cfg.si };
+                            let want = exp.get(j).map(|&c| format!("{}{}", ind, words[k..k + c].join(" ")));
+                            if want.as_deref() != Some(&**l) {
+                                bad = Some(j);
+                                break;
+                            }
+                            k += exp[j];
+                        }
+                        if bad.is_none() && lines.len() != exp.len() {
+                            bad = Some(lines.len().min(exp.len()));
+                        }
+                        cx.check("C07-text-greedy-rule(long)", bad.is_none(), &d, &|| json!({"first_differing_line": bad, "lines": lines.len(), "greedy_rule_lines": exp.len(), "line": bad.and_then(|b| lines.get(b)).map(|l| l.to_string())}));
                     }
                     "C02" => {
                         // every word is at most 10 columns wide, so every line must fit
